@@ -167,7 +167,10 @@ func ruleC09(c *Ctx) {
 		if sq := partialOf(seedRecord(rtb, g), "Sequence"); sq != nil && strings.Contains(sq.String(), "ReverseComplement") {
 			kind = "flipped"
 		}
-		c.check(measured, "VARIANT", "recursive spawn ("+kind+") carries a decreasing measure", g.Pos(), "strictly smaller pool, bounded depth or consulted visited set", "unmeasured recursive spawn: "+why+"; with a pool whose overhangs close a cycle that excludes the seed (a->b, b->c, c->b) the recursion never terminates")
+		// (the orientation of the extension is printed, but is not part of the obligation's name: a refactor that
+		// builds the new seed through a helper hides it, and the defect is the same)
+		_ = kind
+		c.check(measured, "VARIANT", "recursive spawn carries a decreasing measure", g.Pos(), "strictly smaller pool, bounded depth or consulted visited set", "unmeasured recursive spawn: "+why+"; with a pool whose overhangs close a cycle that excludes the seed (a->b, b->c, c->b) the recursion never terminates")
 	}
 }
 
